@@ -777,12 +777,19 @@ class Result(JsonSerializable):
                 for _ in range(v):
                     r.update(i)
 
+            # The updates above accumulated the values in crescent order.
+            # Restore the original order.
+            r._value_list = d['value_list']
+            r._total_list = d['total_list']
         else:
-            r = Result.create(name=d['name'],
-                              update_type=d['update_type_code'],
-                              value=d['value'],
-                              total=d['total'],
-                              accumulate_values=d['accumulate_values_bool'])
+            # Note that we set the attributes directly instead of calling
+            # the `update` method, since the Result might not have been
+            # updated yet (a RATIOTYPE Result would then divide by zero)
+            r = Result(name=d['name'],
+                       update_type_code=d['update_type_code'],
+                       accumulate_values=d['accumulate_values_bool'])
+            r._value = d['value']
+            r._total = d['total']
             r._value_list = d['value_list']
             r._total_list = d['total_list']
             r.num_updates = d['num_updates']
